@@ -357,7 +357,9 @@ func c16Specs(env *c16Env) []rpcSpec {
 			{"name", nameAlts(nameDefault, "subscriptions", func(m proto.Message, v string) { get(m).Name = v })},
 			{"topic", nameAlts(c16T1, "topics", func(m proto.Message, v string) { get(m).Topic = v })},
 			{"ttl", append([]alt{{"policy-absent", func(m proto.Message) {}}, {"policy-empty", func(m proto.Message) { get(m).ExpirationPolicy = &pubsubpb.ExpirationPolicy{} }}},
-				durAlts(func(m proto.Message, v *durationpb.Duration) { get(m).ExpirationPolicy = &pubsubpb.ExpirationPolicy{Ttl: v} })[1:]...)},
+				durAlts(func(m proto.Message, v *durationpb.Duration) {
+					get(m).ExpirationPolicy = &pubsubpb.ExpirationPolicy{Ttl: v}
+				})[1:]...)},
 			{"retention", durAlts(func(m proto.Message, v *durationpb.Duration) { get(m).MessageRetentionDuration = v })},
 			{"retry", []alt{
 				{"absent", func(m proto.Message) {}},
@@ -423,7 +425,9 @@ func c16Specs(env *c16Env) []rpcSpec {
 				{"none", func(m proto.Message) {}},
 				{"valid", func(m proto.Message) { get(m).Filter = "attributes:x" }},
 				{"invalid", func(m proto.Message) { get(m).Filter = "attributes:" }},
-				{"deep", func(m proto.Message) { get(m).Filter = strings.Repeat("(", 200) + "attributes:x" + strings.Repeat(")", 200) }},
+				{"deep", func(m proto.Message) {
+					get(m).Filter = strings.Repeat("(", 200) + "attributes:x" + strings.Repeat(")", 200)
+				}},
 			}},
 			{"flags", []alt{
 				{"none", func(m proto.Message) {}},
@@ -552,7 +556,9 @@ func c16Specs(env *c16Env) []rpcSpec {
 				}
 				return r.Subscription
 			}, c16S2),
-				field{"mask", maskAlts(subPaths, func(m proto.Message, v *fieldmaskpb.FieldMask) { m.(*pubsubpb.UpdateSubscriptionRequest).UpdateMask = v })},
+				field{"mask", maskAlts(subPaths, func(m proto.Message, v *fieldmaskpb.FieldMask) {
+					m.(*pubsubpb.UpdateSubscriptionRequest).UpdateMask = v
+				})},
 				field{"subscription", []alt{{"present", func(m proto.Message) {}}, {"absent", func(m proto.Message) { m.(*pubsubpb.UpdateSubscriptionRequest).Subscription = nil }}}},
 			),
 			invoke: func(ctx context.Context, s *c16Srv, m proto.Message) error {
@@ -669,7 +675,9 @@ func c16Specs(env *c16Env) []rpcSpec {
 			fields: []field{
 				{"subscription", nameAlts(c16S1, "subscriptions", func(m proto.Message, v string) { m.(*pubsubpb.SeekRequest).Subscription = v })},
 				{"target", []alt{
-					{"time-now", func(m proto.Message) { m.(*pubsubpb.SeekRequest).Target = &pubsubpb.SeekRequest_Time{Time: timestamppb.Now()} }},
+					{"time-now", func(m proto.Message) {
+						m.(*pubsubpb.SeekRequest).Target = &pubsubpb.SeekRequest_Time{Time: timestamppb.Now()}
+					}},
 					{"none", func(m proto.Message) {}},
 					{"time-nil", func(m proto.Message) { m.(*pubsubpb.SeekRequest).Target = &pubsubpb.SeekRequest_Time{} }},
 					{"time-year1", func(m proto.Message) {
@@ -684,12 +692,16 @@ func c16Specs(env *c16Env) []rpcSpec {
 					{"time-invalid", func(m proto.Message) {
 						m.(*pubsubpb.SeekRequest).Target = &pubsubpb.SeekRequest_Time{Time: &timestamppb.Timestamp{Seconds: math.MaxInt64, Nanos: -1}}
 					}},
-					{"snapshot", func(m proto.Message) { m.(*pubsubpb.SeekRequest).Target = &pubsubpb.SeekRequest_Snapshot{Snapshot: c16N1} }},
+					{"snapshot", func(m proto.Message) {
+						m.(*pubsubpb.SeekRequest).Target = &pubsubpb.SeekRequest_Snapshot{Snapshot: c16N1}
+					}},
 					{"snapshot-unknown", func(m proto.Message) {
 						m.(*pubsubpb.SeekRequest).Target = &pubsubpb.SeekRequest_Snapshot{Snapshot: "projects/p/snapshots/nope"}
 					}},
 					{"snapshot-empty", func(m proto.Message) { m.(*pubsubpb.SeekRequest).Target = &pubsubpb.SeekRequest_Snapshot{} }},
-					{"snapshot-badname", func(m proto.Message) { m.(*pubsubpb.SeekRequest).Target = &pubsubpb.SeekRequest_Snapshot{Snapshot: "x"} }},
+					{"snapshot-badname", func(m proto.Message) {
+						m.(*pubsubpb.SeekRequest).Target = &pubsubpb.SeekRequest_Snapshot{Snapshot: "x"}
+					}},
 				}},
 			},
 			invoke: func(ctx context.Context, s *c16Srv, m proto.Message) error {
